@@ -17,8 +17,9 @@ CHECKS = {
         "exhaustive grid enumeration + Hypothesis origin tuples vs interval / flat-list reference model",
         "Exhaustive enumeration of all pairs and triples of code ranges on a small index grid and of "
         "ill-formed constructions, plus seeded Hypothesis search over tuples of origins of every kind "
-        "and over texts x ranges, each compared with an independent interval / flat-list model "
-        "(both directions of every law). Bounded exploration: no universal claim beyond the grid.",
+        "and over texts x ranges (in-memory sources, and text / plain / zipped file sources incl. Latin-1, cp1252 "
+        "and UTF-8 files whose first non-ASCII character comes late), each compared with an independent interval / "
+        "flat-list model (both directions of every law). Bounded exploration: no universal claim beyond the grid.",
         "Trusts Hypothesis as generator, the reference model in pbt/props/c15.py, Python's str slicing; "
         "positions are well-formed (line/column derived from index).",
         "DESIGN.md section 3 / C15",
@@ -100,7 +101,9 @@ CHECKS["C09"] = (
     "and non-strict, keep/clone/rewrite/replace/remove/raise); a plain visitor and a transformer are synthesised, "
     "their dispatch logs are compared with an MRO reference, the transformed tree with a reference rewrite "
     "including which result objects must be the very input objects and which must be new, and the input tree's "
-    "frame snapshot must be unchanged (also when a rule raises). Bounded exploration.",
+    "frame snapshot must be unchanged (also when a rule raises, with a plain or an AttributeError-flavoured "
+    "exception); a second part visits three node classes that share one name over different bases in every "
+    "drawn order with every subset of five rule methods. Bounded exploration.",
     "Trusts Hypothesis and the reference rewrite; removal rules degrade to keep at non-removable positions.",
     "DESIGN.md section 3 / C09",
 )
